@@ -146,6 +146,17 @@ impl Dispatcher {
                                             task.await.ok();
                                         }
                                     }
+                                    // The loop above can accept any number of
+                                    // closures without ever yielding, and once
+                                    // this future is ready `block_on` ticks the
+                                    // executor only one more time, i.e. polls at
+                                    // most `event_interval` tasks. Everything
+                                    // beyond that would be dropped without its
+                                    // closure ever being called, although
+                                    // `dispatch` accepted it. Start them all
+                                    // before leaving; what is still unfinished
+                                    // afterwards is cancelled as before.
+                                    while Runtime::with_current(|rt| rt.run()) {}
                                 },
                                 meta,
                             );
